@@ -27,18 +27,25 @@ def sibling_project(project, syntax, section, rng_style):
         p["cfg_glob"]["key"] = new_glob
     explicit_self = any(key == syntax for key, _ in cfg["file_patterns"])
     if configsyn.is_toml(syntax):
-        style = {"toml_literal": rng_style.random() < 0.5, "toml_inline": rng_style.random() < 0.5}
+        style = {"toml_literal": rng_style.random() < 0.5, "toml_inline": rng_style.random() < 0.5,
+                 "toml_eq": rng_style.choice([" = ", " = ", "=", "  =  "]), "comment": rng_style.choice([None, "bumpver settings", "tag = true"])}
+        if explicit_self:
+            style["version_eq"] = " = "
         if syntax == "pyproject.toml":
             style["preamble"] = '[project]\nname = "demo"\n'
     else:
         q = rng_style.choice(['"', "'", ""])
         style = {"quote": q, "bool_true": rng_style.choice(configsyn.INI_TRUE), "bool_false": rng_style.choice(configsyn.INI_FALSE),
-                 "version_quote": '"' if explicit_self else q}
+                 "version_quote": '"' if explicit_self else q, "ini_delim": rng_style.choice([" = ", " = ", "=", ": ", " : "]),
+                 "comment": rng_style.choice([None, "bumpver settings", "tag = True"])}
+        if explicit_self:
+            style["version_eq"] = " = "
         if rng_style.random() < 0.5:
             style["preamble"] = "[metadata]\nname = demo\n"
     if section == "pycalver":
         style["section"] = "pycalver"
     p["style"] = style
+    p["cfg_regime"] = rng_style.choice(["lf", "lf", "crlf"])
     return p
 
 
